@@ -136,9 +136,23 @@ func runNAS(ctx *Ctx, prop string) {
 			if e.Fmt == "V" || e.Fixed {
 				continue
 			}
-			for _, n := range []int{0, 1, 2, 255, 256, 1000} {
+			for _, n := range []int{0, 1, 2, 255, 256, 1000, 65533, 65534, 65535} {
 				if (e.Fmt == "LV" && n > 255) || (e.Cap > 0 && n > e.Cap) {
 					continue
+				}
+				if n > 1000 {
+					// the top of a two-octet length indicator, also with each optional IE behind the field (what follows a
+					// maximal field must still be found)
+					for oi := range t.Optional {
+						i, n, oi := i, n, oi
+						cases = append(cases, nasCase{t: t, mk: func() nasAbstract {
+							a := nasAbstract{mand: nasMandatoryDefault(t, 1)}
+							a.mand[i] = pattern(2, n)
+							e := t.Optional[oi]
+							a.opts = []refnas.OptVal{{Idx: oi, Val: nasOptValue(e, nasOptLengths(e)[0], 1)}}
+							return a
+						}, desc: fmt.Sprintf("mandatory field %d length %d followed by IE %d", i, n, oi)})
+					}
 				}
 				i, n := i, n
 				cases = append(cases, nasCase{t: t, mk: func() nasAbstract {
@@ -232,7 +246,7 @@ func runNAS(ctx *Ctx, prop string) {
 	} else {
 		nasConstructors(ctx, tab)
 	}
-	r.Rule = fmt.Sprintf("for each of the %d message types of the frozen TS 24.501 table (%d (message, optional IE) pairs): all 2^k optional-IE subsets for k<=%d, else none/all/each alone/all-but-one/every pair%s; every optional IE alone and with its neighbours%s at lengths {1,2,0,3,16,255,256,1000,capacity} x 3 contents (both nibbles of half-octet IEs); mandatory LV/LV-E lengths {0,1,2,255,256,1000}; every permutation of the first <=4 optional IEs%s and every adjacent transposition of all of them on the wire; %s; distinct = distinct (message, abstract value, wire order); non-trivial = at least one optional IE or a non-default length",
+	r.Rule = fmt.Sprintf("for each of the %d message types of the frozen TS 24.501 table (%d (message, optional IE) pairs): all 2^k optional-IE subsets for k<=%d, else none/all/each alone/all-but-one/every pair%s; every optional IE alone and with its neighbours%s at lengths {1,2,0,3,16,255,256,1000,65533..65535,capacity} x 3 contents (both nibbles of half-octet IEs); mandatory LV/LV-E lengths {0,1,2,255,256,1000,65533,65534,65535} (the largest also followed by each optional IE); every permutation of the first <=4 optional IEs%s and every adjacent transposition of all of them on the wire; %s; distinct = distinct (message, abstract value, wire order); non-trivial = at least one optional IE or a non-default length",
 		len(tab.Messages), pairs, map[bool]int{false: 17, true: 24}[ctx.Thorough], map[bool]string{true: "", false: "/every triple"}[ctx.Thorough], " and next to every other single IE",
 		" and of every choice of 4 optional IEs", map[string]string{
 			"C08": "oracle: decode(encode(m)) == m; for the reference's canonical bytes b: encode(decode(b)) == b; permuted wire orders decode to the same message; all 256 message-type octets x both EPDs: unknown types are errors",
